@@ -565,3 +565,42 @@ pub fn complex_selector(components: Vec<VComponent>) -> VComplex {
 pub fn complex_is_super_selector(a: &VComplex, b: &VComplex) -> bool {
     a.0.is_super_selector(&b.0)
 }
+
+// ---------------------------------------------------------------------------
+// built-in functions (list / string index arithmetic)
+// ---------------------------------------------------------------------------
+
+pub use crate::ast::ArgumentResult;
+
+pub fn raw_error(msg: &'static str, span: Span) -> Box<crate::Error> {
+    (msg, span).into()
+}
+
+#[derive(Debug, Clone, Copy, PartialEq, Eq)]
+pub enum BuiltinFn {
+    Length,
+    Nth,
+    SetNth,
+    StrLength,
+    StrSlice,
+    StrIndex,
+    StrInsert,
+}
+
+macro_rules! builtin_wrappers {
+    ($($name:ident => $path:path),* $(,)?) => {
+        $(pub fn $name(args: ArgumentResult, visitor: &mut crate::Visitor<'_>) -> Result<Value, Span> {
+            err_span($path(args, visitor))
+        })*
+    };
+}
+
+builtin_wrappers! {
+    builtin_length => crate::builtin::verif_reexport::length,
+    builtin_nth => crate::builtin::verif_reexport::nth,
+    builtin_set_nth => crate::builtin::verif_reexport::set_nth,
+    builtin_str_length => crate::builtin::verif_reexport::str_length,
+    builtin_str_slice => crate::builtin::verif_reexport::str_slice,
+    builtin_str_index => crate::builtin::verif_reexport::str_index,
+    builtin_str_insert => crate::builtin::verif_reexport::str_insert,
+}
